@@ -232,6 +232,9 @@ func cmdVerify(eng *Engine, name string, dump bool, timeoutMs int, verbose bool)
 		nfail := 0
 		for _, o := range fr.Obls {
 			ok := o.ok()
+			if o.Cover && o.Status == "vacuous" && strings.HasPrefix(o.Key, "ret") {
+				ok = true // dead return; only reported by check when every return is dead
+			}
 			mark := "ok  "
 			if !ok {
 				mark = "FAIL"
